@@ -848,8 +848,8 @@ class System:
     def smart_unrequest(self, path):
         rp = self.names.decode(1, path)
         self.rec.ev("Unreq", path=path)
-        self._app_call("Unreq", lambda: self.cs.smart_unsync_path(rp, 1))
-        self.rec.ev("UnreqEnd", path=path, post=self.trees())
+        ok = self._app_call("Unreq", lambda: self.cs.smart_unsync_path(rp, 1))
+        self.rec.ev("UnreqEnd", path=path, ok=ok, post=self.trees())
 
     def smart_list(self, path):
         lp = self.names.decode(0, path)
